@@ -8,9 +8,10 @@ namespace OAP.Waiters
 
 structure WInv (s : St) : Prop where
   -- a table entry points to a live call of that id and connection
-  tab : ∀ r i c, s.recvs r = some (i, c) → s.call i = .registered c r ∨ s.call i = .written c r
-  -- entries of the current connection are below the id counter (so `start` never overwrites one)
-  tabLt : ∀ r i, s.recvs r = some (i, s.cur) → r < s.nextId
+  tab : ∀ r i c, s.recvs r = some (i, c) →
+    s.call i = .registered c r ∨ s.call i = .written c r ∨ ∃ res, s.call i = .returning c r res
+  -- entries of the current connection carry issued ids (so `start`, which takes a fresh id, never overwrites one)
+  tabLt : ∀ r i, s.recvs r = some (i, s.cur) → s.issued r = true
   -- no entry belongs to a future connection
   tabCur : ∀ r i c, s.recvs r = some (i, c) → c ≤ s.cur
   -- what sits in a call's channel was addressed to it and arrived on its connection
@@ -18,13 +19,14 @@ structure WInv (s : St) : Prop where
   fullW : ∀ i p c r, s.chan i = .full p → s.call i = .written c r → p.rid = r ∧ p.conn = c
   -- results
   doneOk : ∀ i c r p, s.call i = .done c r (some p) → p.rid = r ∧ p.conn = c
+  retOk : ∀ i c r p, s.call i = .returning c r (some p) → p.rid = r ∧ p.conn = c
   idleUnused : ∀ i, s.call i = .idle → s.chan i = .unused
   -- NO LOST WAKE-UP: a call of the current connection that is in flight with an empty slot IS in the table
   regTab : ∀ i r, s.call i = .registered s.cur r → s.chan i = .empty → s.recvs r = some (i, s.cur)
   wrTab : ∀ i r, s.call i = .written s.cur r → s.chan i = .empty → s.recvs r = some (i, s.cur)
   callCur : ∀ i c r, (s.call i = .registered c r ∨ s.call i = .written c r) → c ≤ s.cur
-  -- ids of in-flight calls on the current connection are below the counter
-  callLt : ∀ i r, (s.call i = .registered s.cur r ∨ s.call i = .written s.cur r) → r < s.nextId
+  -- ids of in-flight calls on the current connection are issued ids
+  callLt : ∀ i r, (s.call i = .registered s.cur r ∨ s.call i = .written s.cur r) → s.issued r = true
   -- in-flight calls of one connection have distinct ids
   uniq : ∀ i j c r, (s.call i = .registered c r ∨ s.call i = .written c r) →
                     (s.call j = .registered c r ∨ s.call j = .written c r) → s.chan i = .empty → s.chan j = .empty → i = j
@@ -32,45 +34,61 @@ structure WInv (s : St) : Prop where
 theorem inv_init : WInv init := by
   constructor <;> simp [init]
 
-theorem pres_start (s : St) (i : Nat) (h : WInv s) (hp : s.call i = .idle) :
-    WInv { s with nextId := s.nextId + 1, recvs := upd s.recvs s.nextId (some (i, s.cur)),
-                  chan := upd s.chan i .empty, call := upd s.call i (.registered s.cur s.nextId) } := by
-  obtain ⟨h1, h2, h3, h4, h5, h6, h7, h8, h9, h10, h11, h12⟩ := h
+theorem pres_start (s : St) (i k : Nat) (h : WInv s) (hp : s.call i = .idle) (hk : s.issued k = false) :
+    WInv { s with issued := upd s.issued k true, recvs := upd s.recvs k (some (i, s.cur)),
+                  chan := upd s.chan i .empty, call := upd s.call i (.registered s.cur k) } := by
+  obtain ⟨h1, h2, h3, h4, h5, h6, h6b, h7, h8, h9, h10, h11, h12⟩ := h
   constructor <;> simp only [upd, unregister] <;> intros <;> grind
 
 theorem pres_write_ok (s : St) (i : Nat) (h : WInv s) (c r : Nat) (hp : s.call i = .registered c r) :
     WInv { s with call := upd s.call i (.written c r) } := by
-  obtain ⟨h1, h2, h3, h4, h5, h6, h7, h8, h9, h10, h11, h12⟩ := h
+  obtain ⟨h1, h2, h3, h4, h5, h6, h6b, h7, h8, h9, h10, h11, h12⟩ := h
+  constructor <;> simp only [upd, unregister] <;> intros <;> grind
+
+theorem pres_decide (s : St) (i : Nat) (h : WInv s) (c r : Nat)
+    (hp : s.call i = .registered c r ∨ s.call i = .written c r) :
+    WInv { s with call := upd s.call i (.returning c r none) } := by
+  obtain ⟨h1, h2, h3, h4, h5, h6, h6b, h7, h8, h9, h10, h11, h12⟩ := h
+  constructor <;> simp only [upd, unregister] <;> intros <;> grind
+
+theorem pres_take (s : St) (i : Nat) (h : WInv s) (c r : Nat) (p : Pkt)
+    (hp : s.call i = .written c r) (hf : s.chan i = .full p) :
+    WInv { s with call := upd s.call i (.returning c r (some p)), chan := upd s.chan i .empty } := by
+  obtain ⟨h1, h2, h3, h4, h5, h6, h6b, h7, h8, h9, h10, h11, h12⟩ := h
   constructor <;> simp only [upd, unregister] <;> intros <;> grind
 
 theorem pres_finish (s : St) (i : Nat) (h : WInv s) (c r : Nat) (res : Option Pkt)
-    (hp : s.call i = .registered c r ∨ s.call i = .written c r)
-    (hres : ∀ p, res = some p → p.rid = r ∧ p.conn = c) :
+    (hp : s.call i = .returning c r res) :
     WInv { s with call := upd s.call i (.done c r res), recvs := unregister s i r } := by
-  obtain ⟨h1, h2, h3, h4, h5, h6, h7, h8, h9, h10, h11, h12⟩ := h
+  obtain ⟨h1, h2, h3, h4, h5, h6, h6b, h7, h8, h9, h10, h11, h12⟩ := h
   constructor <;> simp only [upd, unregister] <;> intros <;> grind
 
 theorem pres_dispatch (s : St) (i : Nat) (h : WInv s) (p : Pkt) (c : Nat)
     (hr : s.recvs p.rid = some (i, c)) (hc : c = p.conn) (he : s.chan i = .empty) :
     WInv { s with chan := upd s.chan i (.full p) } := by
-  obtain ⟨h1, h2, h3, h4, h5, h6, h7, h8, h9, h10, h11, h12⟩ := h
+  obtain ⟨h1, h2, h3, h4, h5, h6, h6b, h7, h8, h9, h10, h11, h12⟩ := h
   constructor <;> simp only [upd, unregister] <;> intros <;> grind
 
 theorem pres_failAll (s : St) (h : WInv s) :
     WInv { s with recvs := fun _ => none, chan := closeRegistered s } := by
-  obtain ⟨h1, h2, h3, h4, h5, h6, h7, h8, h9, h10, h11, h12⟩ := h
+  obtain ⟨h1, h2, h3, h4, h5, h6, h6b, h7, h8, h9, h10, h11, h12⟩ := h
   constructor <;> simp only [closeRegistered] <;> intros <;> grind
 
-theorem pres_newConn (s : St) (h : WInv s) : WInv { s with cur := s.cur + 1, nextId := 1 } := by
-  obtain ⟨h1, h2, h3, h4, h5, h6, h7, h8, h9, h10, h11, h12⟩ := h
+theorem pres_newConn (s : St) (h : WInv s) : WInv { s with cur := s.cur + 1, issued := fun _ => false } := by
+  obtain ⟨h1, h2, h3, h4, h5, h6, h6b, h7, h8, h9, h10, h11, h12⟩ := h
   constructor <;> intros <;> grind
 
 theorem inv_step (s s' : St) (a : Act) (h : WInv s) (hs : step s a = some s') : WInv s' := by
   cases a with
-  | start i =>
+  | start i k =>
     simp only [step] at hs
     split at hs
-    · rename_i hp; simp only [Option.some.injEq] at hs; subst hs; exact pres_start s i h hp
+    · rename_i hp
+      split at hs
+      · simp at hs
+      · rename_i hk
+        simp only [Option.some.injEq] at hs; subst hs
+        exact pres_start s i k h hp (by simpa using hk)
     · simp at hs
   | write i ok =>
     simp only [step] at hs
@@ -79,7 +97,7 @@ theorem inv_step (s s' : St) (a : Act) (h : WInv s) (hs : step s a = some s') : 
       split at hs
       · simp only [Option.some.injEq] at hs; subst hs; exact pres_write_ok s i h c r hp
       · simp only [Option.some.injEq] at hs; subst hs
-        exact pres_finish s i h c r none (Or.inl hp) (by intro p hp; cases hp)
+        exact pres_decide s i h c r (Or.inl hp)
     · simp at hs
   | dispatch p =>
     simp only [step] at hs
@@ -98,16 +116,22 @@ theorem inv_step (s s' : St) (a : Act) (h : WInv s) (hs : step s a = some s') : 
     · rename_i c r hp
       split at hs
       · rename_i p hf; simp only [Option.some.injEq] at hs; subst hs
-        exact pres_finish s i h c r (some p) (Or.inr hp) (by intro q hq; cases hq; exact h.fullW i p c r hf hp)
+        exact pres_take s i h c r p hp hf
       · simp only [Option.some.injEq] at hs; subst hs
-        exact pres_finish s i h c r none (Or.inr hp) (by intro p hp; cases hp)
+        exact pres_decide s i h c r (Or.inr hp)
       · simp at hs
     · simp at hs
   | giveUp i =>
     simp only [step] at hs
     split at hs
     · rename_i c r hp; simp only [Option.some.injEq] at hs; subst hs
-      exact pres_finish s i h c r none (Or.inr hp) (by intro p hp; cases hp)
+      exact pres_decide s i h c r (Or.inr hp)
+    · simp at hs
+  | finish i =>
+    simp only [step] at hs
+    split at hs
+    · rename_i c r res hp; simp only [Option.some.injEq] at hs; subst hs
+      exact pres_finish s i h c r res hp
     · simp at hs
   | failAll => simp only [step, Option.some.injEq] at hs; subst hs; exact pres_failAll s h
   | newConn => simp only [step, Option.some.injEq] at hs; subst hs; exact pres_newConn s h
